@@ -68,9 +68,12 @@ def c02(a):
     binary = build_harness()
     if not a.replay:
         c.add_mc(tlc_mc("MC_BigInt.tla", "MC_BigInt.cfg", os.path.join(workdir("C02", False), "mc"), workers=4))
+        # the instant <-> civil mapping of Instant.tla itself against the statement (shift by the offset, invertible)
+        c.add_mc(tlc_mc("MC_Instant.tla", "MC_Instant.cfg", os.path.join(workdir("C02", False), "mc2"), workers=4))
     drive_and_validate(c, a, binary, "c02", "Trace_C02.tla")
     c.rule = ("Engine C: BigInt.tla (the limb arithmetic every conversion below uses) model-checked against native "
-              "arithmetic. Engine A: events ts_civil (Offset::to_datetime, Timestamp::to_zoned(fixed), and both inverse "
+              "arithmetic; MC_Instant: the specification's own instant <-> civil mapping is a shift by exactly the offset, "
+              "invertible, and consistent with the API's (seconds, nanoseconds) form, on a grid at the edges. Engine A: events ts_civil (Offset::to_datetime, Timestamp::to_zoned(fixed), and both inverse "
               "routes), civil_ts, ts_new, ts_from (4 units), ts_views, validated by Trace_C02.tla which does every floor "
               "division itself. quick = day boundary -1ns/0/+1ns for ~47k days (Jan 1 and Mar 1 of every year, +-1500 "
               "days around the epoch, 800 days at each range end, seeded) x rotating offsets, seconds of days -1/0 and of "
